@@ -1,24 +1,8 @@
 INIT TInit
 NEXT TNext
 CONSTANTS
-  Keys = {}
-  AllowedKeys = {}
-  AllowedModes = {}
-  Forms = {}
-  IntCoefs = {}
-  DecCoefs = {}
-  InactCoefs = {}
-  MaxReac = 0
-  MaxProd = 0
-  MaxInact = 0
-  Arrows = {}
-  Params = {}
-  Kws = {}
-  MaxLines = 0
-  Comments = {}
-  MaxComments = 0
-  FaultKinds = {}
-  PrintOpts <- AllPrintOpts
+  SliceTable <- TraceTable
+  SliceNames = {"trace"}
 INVARIANT Verdict
 INVARIANT RepeatedSpeciesSummed
 INVARIANT InactiveNeverActive
